@@ -56,6 +56,7 @@ from typing import TYPE_CHECKING
 from typing import ClassVar
 
 from numpy import array
+from numpy import atleast_2d
 from numpy import repeat
 from numpy import zeros
 from sklearn.linear_model import ElasticNet
@@ -135,7 +136,8 @@ class LinearRegressor(BaseRegressor):
         self,
         input_data: RealArray,
     ) -> RealArray:
-        return repeat(self.algo.coef_[None], len(input_data), axis=0)
+        # The coefficients are 1D for penalized regressions with a single output.
+        return repeat(atleast_2d(self.algo.coef_)[None], len(input_data), axis=0)
 
     @property
     def coefficients(self) -> RealArray:
